@@ -23,6 +23,8 @@ void obs(const char* fmt, ...) __attribute__((format(printf, 1, 2)));  // append
 void fail(const char* fmt, ...) __attribute__((format(printf, 1, 2))); // property monitor fired
 void point(const char* what);            // an explicit scheduling point (no memory effect)
 int64_t vnow_ns();                       // virtual clock
+void yield_until(int64_t deadline_ns);   // sched_yield (disabled until somebody made progress) during which the virtual clock may
+                                         // advance to deadline_ns: a kernel-side timed wait (epoll_wait with an armed timerfd)
 void set_auto_clock(bool on);            // let time advance when everybody is blocked (default on)
 inline void require(bool c, const char* msg) { if (!c) fail("%s", msg); }
 
